@@ -343,6 +343,9 @@ class C09(Property):
         extra = {}
         if cls in NL_CLASSES:
             opts.update(stall_limit=stall_limit, stall_tol=enc(stall_tol), stall_tol_type=stall_type)
+            if rng.random() < 0.3:
+                # diagnostics on: what is printed on a failure must not change what is reported
+                opts['debug_print'] = True
         if cls == 'NewtonSolver':
             extra['solve_subsystems'] = rng.random() < 0.3
         if cls == 'NonlinearBlockGS':
@@ -463,7 +466,10 @@ class C09(Property):
             s._iter_get_norm = get_norm
             s.report_failure = report
             raised = None
+            import contextlib
+            import io
             try:
+              with contextlib.redirect_stdout(io.StringIO()):
                 if is_nl:
                     s.solve()
                 else:
